@@ -549,6 +549,16 @@ def _workload(tier, rng, shard, nshards, work=None):
         lab = "SPLICE"
         if ents and rng.random() < 0.25:
             lab = rng.choice([e[2] for e in ents if e[2]] or ["SPLICE"])  # a word the tier already holds (said again)
+        if ents and rng.random() < 0.12:
+            # the end of a word is re-recorded: the replaced stretch starts inside an entry and ends exactly where that entry ends,
+            # and the new interval carries the same label
+            e = rng.choice(ents)
+            i0, i1 = round(e[0] * rate), round(e[1] * rate)
+            if e[2] and i1 - i0 >= 2:
+                start, stop, lab = rng.randrange(i0 + 1, i1) / rate, e[1], e[2]
+                REC.cls("C18:splice:replaces-the-end-of-a-same-labelled-entry")
+                guarded(praatio_scripts.audioSplice, target, seg, tg, "words", lab, start, stop, False)
+                target = wav.new()
         guarded(praatio_scripts.audioSplice, target, seg, tg, "words", lab, start, stop, rng.random() < 0.5)
 
 
